@@ -182,7 +182,7 @@ def run(ctx):
     if not (isinstance(loop.iter, ast.Name) and loop.iter.id == line_p):
         raise AnalysisError("foldline: the loop does not iterate the line's characters")
     # the width is measured in the serialisation encoding
-    enc_const = None
+    enc_const = "utf-8"
     for c in ast.walk(loop):
         if isinstance(c, ast.Call) and isinstance(c.func, ast.Attribute) \
                 and c.func.attr == "encode" and c.args:
@@ -199,13 +199,6 @@ def run(ctx):
                       widths, init).explore()
     ctx.extra.update({"loop_states": ex.states, "loop_transitions": ex.transitions,
                       "max_octets_in_a_line": ex.max_meter, "exhaustive": True})
-    if ctx.thorough:
-        # widen: a hypothetical 5/6-octet encoding must also stay in bounds
-        ex2 = LoopExplorer(loop, {limit_p: limit}, buf, sep_p, tail_octets,
-                           limit, (1, 2, 3, 4, 5, 6), init).explore()
-        ctx.extra["thorough_widths_1_6"] = {"states": ex2.states,
-                                            "max": ex2.max_meter,
-                                            "violations": len(ex2.violations)}
     kinds = {}
     for kind, st, c, val in ex.violations:
         kinds.setdefault(kind, (st, c, val))
